@@ -416,6 +416,32 @@ pub fn exec_trace(w: &mut C17Worker, trace: &Value, res: &mut ExecResult) {
         }
         res.states.insert(s.names().hash());
     }
+    // by-construction effect of an import (independent of numbat): every top-level definition in
+    // the source text of a delivered module exists in the session afterwards
+    {
+        let names = s.names();
+        for m in &set {
+            let src = overrides
+                .iter()
+                .find(|(n, _)| n == m)
+                .map(|(_, t)| t.clone())
+                .or_else(|| std::fs::read_to_string(format!("{}/{}.nbt", crate::sess::modules_dir(), m.replace("::", "/"))).ok());
+            let Some(src) = src else { continue };
+            res.bump("checks.import_effect");
+            for (kw, name) in top_level_definitions(&src) {
+                if !names.contains(&name) {
+                    res.fail(
+                        "import-effect",
+                        format!(
+                            "after deliveries {:?}: module {m} defines {kw} `{name}` but the session does not list it",
+                            inputs
+                        ),
+                    );
+                    return;
+                }
+            }
+        }
+    }
     // convergence
     let d = full_digest(&s);
     res.bump("checks.convergence");
@@ -460,6 +486,33 @@ pub fn exec_trace(w: &mut C17Worker, trace: &Value, res: &mut ExecResult) {
     res.nontrivial = set.len() >= 2 && (!canonical_order || dup_seen);
     res.add("vm_instructions", crate::sess::VM_STEPS_TOTAL.with(|c| c.replace(0)));
     res.add("inputs_including_probes", crate::sess::INPUTS_TOTAL.with(|c| c.replace(0)));
+}
+
+/// (keyword, name) of the definitions a module's source text makes at top level: lines that
+/// start with let / fn / unit / dimension. Names starting with `_` are private (not listed by
+/// the session) and skipped.
+fn top_level_definitions(src: &str) -> Vec<(&'static str, String)> {
+    let mut out = vec![];
+    for line in src.lines() {
+        for kw in ["let", "fn", "unit", "dimension"] {
+            if let Some(rest) = line.strip_prefix(kw)
+                && rest.starts_with(' ')
+            {
+                let body = rest.trim_start();
+                let name: String = body.chars().take_while(|c| c.is_alphanumeric() || *c == '_').collect();
+                // only names that were read completely (next character is a delimiter the
+                // grammar allows there); anything else is left to the other oracles
+                let next = body[name.len()..].chars().next();
+                if !matches!(next, None | Some(' ') | Some(':') | Some('=') | Some('(') | Some('<')) {
+                    continue;
+                }
+                if !name.is_empty() && !name.starts_with('_') {
+                    out.push((kw, name));
+                }
+            }
+        }
+    }
+    out
 }
 
 fn overlay_dir() -> std::path::PathBuf {
